@@ -115,6 +115,9 @@ def link_grammar(ctx, mutate=None, tag=""):
                    detail="sr=%s rr=%s" % (T["sr_conflicts"], T["rr_conflicts"]), props=("C02", "C06", "C07"), model={"sr": T["sr_conflicts"], "rr": T["rr_conflicts"]}, replay=action_replay))
     out.append(Obl(pre + "table/no-error-productions", FN, "table", "no production mentions sly's `error` token (no grammar-level recovery)",
                    status=DISCHARGED if not T["has_error_productions"] else REFUTED, backend="table-compare", detail="", props=("C06",), replay=parser_replay))
+    # ---- the LR tables sly generated vs an INDEPENDENT LALR(1) construction from G_ref (translation validation of the
+    #      table generator; the LR driver loop itself stays an assumed contract)
+    out.extend(lr_table_obligations(T, G, pre, rn))
     # ---- error(): must be a first-party override that always raises
     if T["error_is_sly_default"]:
         out.append(Obl(pre + "ExperimentParser.error/rejects(raises)", FN + ".error", "post",
@@ -170,6 +173,95 @@ def link_grammar(ctx, mutate=None, tag=""):
                            detail="action raises %s" % e, props=props, model={"raises": str(e)}, replay=action_replay))
         except (S.Unsupported, S.Undetermined) as e:
             out.append(Obl(oid, FN + "." + key[0], "post", "action body inside the supported subset", status=UNDECIDED, backend="structural", detail=str(e), props=props))
+    return out
+
+
+def lr_table_obligations(T, G, pre, rn):
+    from spec import lalr_ref
+    out = []
+    lr = T.get("lr")
+    if lr is None:
+        return [Obl(pre + "lr/tables-dumped", FN, "table", "LR tables available", status=UNDECIDED, backend="native", detail="missing", props=("C02", "C06", "C07"))]
+    ref = lalr_ref.build()
+    prodkey = {p["number"]: (rn(p["name"]), tuple(rn(x) for x in p["rhs"])) for p in T["productions"]}
+    refkey = {i: pr for i, pr in enumerate(ref["prods"])}
+
+    def real_act(s, tok):
+        a = lr["action"].get(str(s), {}).get(tok)
+        if a is None:
+            return ("error",)
+        if a > 0:
+            return ("shift", a)
+        if a == 0:
+            return ("accept",)
+        return ("reduce", prodkey.get(-a))
+
+    def ref_act(s, tok):
+        a = ref["action"][s].get(tok)
+        if a is None or a == ("error",):
+            return ("error",)
+        if a[0] == "reduce":
+            return ("reduce", refkey[a[1]])
+        return a
+    terms = sorted(set(ref["terminals"]) | set(T["terminals"]) | {"$end"})
+    nts = sorted(set(ref["nonterminals"]) - {lalr_ref.START})
+    pair = {0: ref["start"]}
+    back = {ref["start"]: 0}
+    todo = [(0, ref["start"])]
+    mismatch = None
+    n_checked = 0
+    while todo and mismatch is None:
+        sr, sf = todo.pop()
+        for tok in terms:
+            a, b = real_act(sr, tok), ref_act(sf, tok)
+            n_checked += 1
+            if a[0] != b[0] or (a[0] == "reduce" and a[1] != b[1]):
+                mismatch = "state %d/%d on %s: sly %s, reference %s" % (sr, sf, tok, a, b)
+                break
+            if a[0] == "shift":
+                if pair.get(a[1], b[1]) != b[1] or back.get(b[1], a[1]) != a[1]:
+                    mismatch = "state %d/%d on %s: shift targets do not correspond (%s vs %s)" % (sr, sf, tok, a[1], b[1])
+                    break
+                if a[1] not in pair:
+                    pair[a[1]] = b[1]
+                    back[b[1]] = a[1]
+                    todo.append((a[1], b[1]))
+        if mismatch:
+            break
+        inv_ren = {}
+        for p in T["productions"]:
+            inv_ren[rn(p["name"])] = p["name"]
+        for nt in nts:
+            gr = lr["goto"].get(str(sr), {}).get(inv_ren.get(nt, nt))
+            gf = ref["goto"][sf].get(nt)
+            n_checked += 1
+            if (gr is None) != (gf is None):
+                mismatch = "state %d/%d goto on %s: sly %s, reference %s" % (sr, sf, nt, gr, gf)
+                break
+            if gr is not None:
+                if pair.get(gr, gf) != gf or back.get(gf, gr) != gr:
+                    mismatch = "state %d/%d goto on %s: targets do not correspond" % (sr, sf, nt)
+                    break
+                if gr not in pair:
+                    pair[gr] = gf
+                    back[gf] = gr
+                    todo.append((gr, gf))
+    ok = mismatch is None and not ref["conflicts"]
+    out.append(Obl(pre + "lr/tables==independent-LALR(1)-construction-from-G_ref", FN, "table",
+                   "the ACTION/GOTO tables sly generated are bisimilar to LALR(1) tables constructed independently from the documented grammar and precedence (so the accepted language and the tree selection are G_ref's, given the LR driver)",
+                   status=DISCHARGED if ok else REFUTED, backend="lalr-compare", detail=mismatch or "%d states paired, %d table entries compared" % (len(pair), n_checked),
+                   props=("C02", "C06", "C07"), model={"mismatch": mismatch, "reference_conflicts": ref["conflicts"][:3]}, replay=parser_replay))
+    # defaulted states: the driver takes their action WITHOUT reading the lookahead; only a state whose every lookahead
+    # reduces by the same production may be defaulted (never the accept state: that would accept a prefix of the text)
+    bad = []
+    for s, a in lr["defaulted"].items():
+        row = set(lr["action"].get(s, {}).values())
+        if not (a < 0 and row == {a}):
+            bad.append("state %s defaulted to action %s with row %s" % (s, a, sorted(row)))
+    out.append(Obl(pre + "lr/defaulted-states-are-pure-reduce-states", FN, "table",
+                   "every state whose action the LR driver takes without a lookahead has that single REDUCE action on all its lookaheads (the accept state is never defaulted)",
+                   status=DISCHARGED if not bad else REFUTED, backend="table-compare", detail="; ".join(bad) or "%d defaulted states" % len(lr["defaulted"]), props=("C06", "C02"),
+                   model={"bad": bad}, replay=parser_replay))
     return out
 
 
